@@ -60,6 +60,49 @@ def goodPrefix : Nat → List Seg → List Seg → Option Nat
     else some (packageEncryptionChunkSize * j)
   | j, _, _ => some (packageEncryptionChunkSize * j)
 
+/-! ## agile package: data flow of `decryptPackage` and the encryptor the format prescribes -/
+
+/-- AES-CBC under the package key with the IV of segment `i` (`createIV(i)`), abstract -/
+structure Cbc where
+  enc : Nat → List Nat → List Nat
+  dec : Nat → List Nat → List Nat
+
+/-- zero padding to the 16-byte block (`append(inputChunk, make([]byte, BlockSize-remainder)...)`) -/
+def pad16l (x : List Nat) : List Nat := x ++ List.replicate ((16 - x.length % 16) % 16) 0
+
+/-- `decryptPackage`: for each chunk taken by the segment loop, pad, decrypt with IV index `i`, append -/
+def decBySegs (c : Cbc) (input : List Nat) : List Seg → List Nat
+  | [] => []
+  | (i, lo, hi) :: r => c.dec i (pad16l ((input.drop lo).take (hi - lo))) ++ decBySegs c input r
+
+def agileDecryptPkg (c : Cbc) (input : List Nat) : Option (List Nat) :=
+  match decryptPackageSegs input.length with
+  | .ok segs => some (decBySegs c input segs)
+  | .err => none
+
+/-- the same data flow written as a recursion over the remaining cipher text -/
+def agileDecData (c : Cbc) : Nat → Nat → List Nat → List Nat
+  | 0, _, _ => []
+  | f + 1, i, data =>
+    if data.isEmpty then []
+    else c.dec i (pad16l (data.take packageEncryptionChunkSize))
+      ++ agileDecData c f (i + 1) (data.drop packageEncryptionChunkSize)
+
+/-- [MS-OFFCRYPTO] 2.3.4.15 encryptor: 4096-byte plaintext segments, the last padded to the block,
+segment `i` encrypted with IV `i` -/
+def agileEncData (c : Cbc) : Nat → Nat → List Nat → List Nat
+  | 0, _, _ => []
+  | f + 1, i, plain =>
+    if plain.isEmpty then []
+    else c.enc i (pad16l (plain.take packageEncryptionChunkSize))
+      ++ agileEncData c f (i + 1) (plain.drop packageEncryptionChunkSize)
+
+def le64n (n : Nat) : List Nat := (List.range 8).map (fun i => n / 256 ^ i % 256)
+
+/-- the EncryptedPackage stream of an agile document -/
+def agileEncryptPkg (c : Cbc) (plain : List Nat) : List Nat :=
+  le64n plain.length ++ agileEncData c plain.length 0 plain
+
 /-! ## standard encryption: the guards of `Decrypt` / `standardDecrypt` on the EncryptionInfo stream -/
 
 def le16At (b : List Nat) (o : Nat) : Nat := b.getD o 0 + 256 * b.getD (o + 1) 0
